@@ -10,6 +10,22 @@ GEN = f"{vf.COQ}/theories/Generated/AccessTable.v"
 def regenerate():
     """(ok, log): rebuild the translator, regenerate the table from /repo's working tree, compile it."""
     with vf.Lock("accessgen"):
+        # the table is a function of the translator's source and of every Go file of /repo: when neither changed since
+        # the table on disk was generated (content hash, not time stamps) there is nothing to regenerate
+        import hashlib
+        h = hashlib.sha256(open(f"{vf.ROOT}/tools/accessgen/main.go", "rb").read())
+        for root, dirs, files in sorted(os.walk(vf.REPO)):
+            dirs[:] = sorted(x for x in dirs if x not in (".git", "vendor", "node_modules"))
+            for f in sorted(files):
+                if f.endswith(".go") or f in ("go.mod", "go.sum"):
+                    h.update(os.path.join(root, f).encode()); h.update(open(os.path.join(root, f), "rb").read())
+        stamp, sfile = h.hexdigest(), GEN + ".stamp"
+        vo = GEN[:-2] + ".vo"
+        if os.path.exists(sfile) and os.path.exists(GEN) and os.path.exists(vo) and open(sfile).read().split("\n")[0] == stamp and \
+                os.path.getmtime(vo) >= os.path.getmtime(GEN) and os.path.getmtime(vo) >= os.path.getmtime(f"{vf.COQ}/theories/Model/Concurrency.vo"):
+            return True, open(sfile).read().split("\n", 1)[1]
+        if os.path.exists(sfile):
+            os.remove(sfile)
         rc, out = vf.sh("go build -o accessgen .", cwd=f"{vf.ROOT}/tools/accessgen", timeout=600)
         if rc != 0:
             return False, "accessgen build failed:\n" + out[-3000:]
@@ -29,6 +45,7 @@ def regenerate():
             rc, out2 = vf.sh("timeout 600 coqc -Q theories SE theories/Generated/AccessTable.v", cwd=vf.COQ)
             if rc != 0:
                 return False, "generated table does not compile:\n" + out2[-3000:]
+        open(sfile, "w").write(stamp + "\n" + out)
         return True, out
 
 
@@ -120,4 +137,37 @@ def mapper_atomicity(rep, why):
                       dict(failed_theorem=thm, theorem_file="coq/theories/Properties/C14_locks.v", coqc=out[-800:],
                            unlocked_sites=unlocked_sites(["pkg/mapper.MetricMapper.Defaults", "pkg/mapper.MetricMapper.Mappings", "pkg/mapper.MetricMapper.FSM",
                                                           "pkg/mapper.MetricMapper.doFSM", "pkg/mapper.MetricMapper.doRegex", "pkg/mapper.MetricMapper.cache"], "MetricMapper.mutex")),
+                      no_input=True)
+
+
+def clock_rows(prefixes=()):
+    """rows of the generated clock_table whose function starts with one of the prefixes (all rows when none given)"""
+    src = open(GEN).read()
+    if "Definition clock_table" not in src:
+        return []
+    src = src[src.index("Definition clock_table"):]
+    src = src[:src.index("].")]
+    rows = re.findall(r'\("([^"]*)", "([^"]*)"\)', src)
+    return [r for r in rows if not prefixes or any(r[0].startswith(p) for p in prefixes)]
+
+
+def clock_obligation(rep, vfile, what, prefixes, search=None):
+    """The model of this part of the code has no time input (or only the named one): re-check the generated obligation
+    of Properties/<vfile> on the current source.  When it fails, [search] (if given) looks for an input / schedule on
+    which the property itself fails; it returns True when it reported one."""
+    ok, log = regenerate()
+    if not ok:
+        rep.violation("the access table could not be regenerated from /repo", dict(log=log), no_input=True)
+        return
+    ok, out = compile_obligation(vfile)
+    thm = "" if ok else failed_theorem(vfile, out)
+    rep.extra["clock_obligation"] = "%s: %s" % (vfile, "checked" if ok else "FAILED at " + thm)
+    if ok:
+        return
+    before = len(rep.violations)
+    found = bool(search and search()) or len(rep.violations) > before
+    if not found:
+        rep.violation("generated obligation %s no longer checks: %s" % (thm or "in " + vfile, what),
+                      dict(failed_theorem=thm, theorem_file="coq/theories/Properties/" + vfile, clock_calls=clock_rows(prefixes), coqc=out[-600:],
+                           searched="a schedule on which the property fails was searched for and not found" if search else "no search for a failing schedule is implemented for this obligation"),
                       no_input=True)
